@@ -254,6 +254,9 @@ TOOL_CONTENTS += [
     "===D===\nPATTERN::[a,b]\n===END===\n", '===D===\nREGEX::["x"∧REQ→§SELF]\n===END===\n', "===D===\nPATTERN::\n```\nraw\n```\n===END===\n", "===D===\nL::[PATTERN::[a,b],REGEX::5,ENUM::\"x\"]\n===END===\n",
     "===D===\nK::a b c\nK::1 2\nK::true x\nK::null y\nV::1.2.3 beta\nF::A->B->C\nT::a vs b vs c\nM::[k::[i::1]]\nX::[1,2\nY::z\n===END===\n", "===D===\nbare line\nK::v\nK::w\n===END===\n", "===D===\nS::REQ∧OPT\nD::" + "[" * 7 + "x" + "]" * 7 + "\n===END===\n",
 ]
+# META fields the tools interpret themselves (TYPE, VERSION, CONTRACT, GRAMMAR) holding every kind of value, not only text
+TOOL_CONTENTS += [f"===D===\nMETA:\n  TYPE::{v}\n  VERSION::{v}\n  CONTRACT::[FIELD[LIMIT]::RANGE[0,5]]\nLIMIT::3\n===END===\n" for v in ("42", "null", "[a,b]", "[k::v]", "true")]
+TOOL_CONTENTS += ["===D===\nMETA:\n  TYPE::X\n  CONTRACT::42\n  GRAMMAR::[1,2]\nK::1\n===END===\n", "===D===\nMETA:\n  TYPE::\n```\nraw\n```\n  CONTRACT::[FIELD[A]::REQ]\nA::1\n===END===\n"]
 SCHEMAS = ["META", "SESSION_LOG", "NOPE", "", "meta", "M" * 300, "../x", "DEBATE_TRANSCRIPT", "SKILL", "TEST_HOLOGRAPHIC"]
 
 
